@@ -94,6 +94,27 @@ CHECKS.update({
    text="Merge (concatenate + sort, edges of the first train) and PSTH (int(T/bin) equal bins by linspace, half-open with a closed last bin) are modelled on grid trains with duplicates across trains and empty trains; TLC checks multiset equality, sortedness, equal bin widths spanning the recording and that the bin values are the spike counts summing to the total; every state is replayed at two unit scales. Code-to-spec: seeded executions of generate_poisson_spikes (3 interval forms x 5 rates) and of merge_spike_trains on the repository's float data file and random float trains are recorded, every time replaced by its rank, and validated in one TLC batch run against the post-condition actions PoissonPost / MergePost.",
    note="nothing is claimed about the distribution of the Poisson generator; rank abstraction is exact for order and equality only"),
 })
+ROUND4 = {
+ "C01": "pairs with a = b are also passed as one object twice; vacuity guard: an effective MRTS in every configuration",
+ "C02": "pairs with a = b are also passed as one object twice; vacuity guard: an effective MRTS in every configuration",
+ "C03": "the public routes of the per-spike indicator (filter, list form) with effective MRTS / max_tau; one object as both arguments; vacuity guard on MRTS and max_tau",
+ "C04": "order checker under five frames; decimal-unit pass (SPIKE-Sync, SPIKE-Order, directionality decide rounding-level ties alike); 'auto' with index selections on a longer recording",
+ "C05": "three unit scales incl. 2^-40 (event times of different trains closer than any merge tolerance)",
+ "C06": "'auto' with index selections on a longer recording (pooled over the whole list)",
+ "C08": "every pair once more dilated (x3, +1) with max_tau 1 and 2",
+ "C09": "history probe: every object is asked integral()/avrg() before the operation and must answer like a fresh object afterwards; tiny unit 2^-50",
+ "C10": "zero-bound frames (a query bound exactly 0.0 inside the support); mul_scalar / add on the queried object followed by the same queries",
+ "C11": "history probe as C09; tiny unit 2^-50 (merge tolerances down to 1e-15 become visible)",
+ "C12": "a decimal unit (0.1) in the twin comparison of the coincidence routines: both twins must round alike",
+ "C13": "trains returned by two reconcile calls (different common intervals) used in the bivariate measures behave like fresh trains",
+ "C14": "all call forms also on interval sequences (pieces reaching both edges)",
+ "C15": "'auto' with index selections on a longer recording for ten entry points",
+ "C16": "third, tiny unit 2^-40: a max_tau of 1e-12 is a bound like any other",
+ "C17": "MRTS='auto' pass on a longer recording; one object in two places of the list vs a copy, with and without Reconcile=False",
+ "C18": "edge-hugging variants: a spike one ulp inside t_end / t_start",
+}
+for _k, _v in ROUND4.items():
+    CHECKS[_k]["note"] = CHECKS[_k]["note"] + "; since the 4th seeded round: " + _v
 NOT_YET = {}
 
 def main():
